@@ -8,7 +8,8 @@ Explorer (every text is handed to the real ElectionProfile(data=...)):
   mutations  a seed corpus of valid files (one per feature, printed by C15's printer) x every token position x
              {delete, replace by s, insert s before} for every s in SIGMA + the seed's own tokens (thorough: also every pair of
              deletions/replacements at two positions for three seeds); truncation at every token and at every character
-  hostile    BOM, NUL, astral characters, non-ASCII digits, superscript digits, lone quote, 10^5-digit numbers, '-0', CR only,
+  bytes      files offered by path holding bytes that are not UTF-8 (Latin-1, UTF-16, binary junk, truncated sequences), a missing file
+  hostile    huge but parseable candidate counts, BOM, NUL, astral characters, non-ASCII digits, superscript digits, lone quote, 10^5-digit numbers, '-0', CR only,
              form feeds ... inserted at (and replacing) every token position of three seeds
 Oracle: the outcome is an accepted profile that satisfies the validity invariants (ids in range, no withdrawn or repeated id in a
 ranking, seats <= eligible, ballots >= eligible, tie order (a total order) / nicknames / names cover exactly the candidates) or ElectionProfileError;
@@ -23,11 +24,12 @@ from ..repo import ElectionProfile, ElectionProfileError, Election
 from ..driver import Check, h64
 from . import c15
 
+_LIMITED = False
 SIGMA = ['0', '1', '2', '3', '-1', '-3', '1=2', '1=1', '(a)', '(b', 'c)', '[tie', '[nick', '[withdrawn', '[undeclared', '[droop', 'x]', ']',
          '"A"', '"B', 'C"', '=', '#', '/*', '*/']
 SIGMA16 = ['0', '1', '2', '-1', '1=2', '(a)', '[tie', '[nick', '[withdrawn', '2]', ']', '"A"', '"B', 'C"', '#', '/*']
 SIGMA14 = ['0', '1', '2', '-1', '(a)', '[tie', '[withdrawn', '2]', ']', '"A"', '"B', 'C"', '/*', '*/']
-HOSTILE = ['﻿', '\x00', '1\x00', '𝟙', '😀', '١', '٢', '²', '³', '①', '"', '""', '"""', '9' * 100000, '-0', '+1', '1.0', '1e1', '0x1',
+HOSTILE = ['300000000000', '99999999', '65536', '﻿', '\x00', '1\x00', '𝟙', '😀', '١', '٢', '²', '³', '①', '"', '""', '"""', '9' * 100000, '-0', '+1', '1.0', '1e1', '0x1',
            '\r', '\x0c', '\x0b1', ' 1', '１', '-', '--1', '[', '[]', '[tie]', '[tie', '(', ')', '()', '1=', '=1', '1==2', '1=2=3=1', '%s', '{0}',
            '\\', '퟿', 'ß', '[droop', '[nick 1 2]', '0' * 400]
 
@@ -85,6 +87,7 @@ class C16(Check):
         for si in (0, 3, 5):
             for p in range(len(S[si]) + 1):
                 yield {'k': 'hostile', 'seed': si, 'p': p}
+        yield {'k': 'bytes'}
         if not q:
             for si in (1, 3, 9):
                 for p in range(len(S[si])):
@@ -160,12 +163,44 @@ class C16(Check):
                     break
         return p
 
+    def judge_bytes(self, data, acc, case, label):
+        "a ballot file offered by path with arbitrary bytes: a profile or the profile error, nothing else"
+        import os
+        import tempfile
+        acc.evaluations += 1
+        fd, path = tempfile.mkstemp(suffix='.blt')
+        try:
+            with os.fdopen(fd, 'wb') as f:
+                f.write(data)
+            signal.alarm(5)
+            try:
+                ElectionProfile(path=path)
+            finally:
+                signal.alarm(0)
+        except ElectionProfileError:
+            pass
+        except trace.CountTimeout:
+            acc.violation('C16|hang|file', 'reading a file of %s did not return within 5 s' % label, dict(case, only=label))
+        except Exception as e:     # pylint: disable=broad-except
+            acc.violation('C16|file-raises|%s' % type(e).__name__, 'ElectionProfile(path=...) raised %r (not a profile error) for a file of %s' % (e, label), dict(case, only=label))
+        finally:
+            os.unlink(path)
+
     def both(self, toks, acc, case):
         self.judge(' '.join(toks), acc, case)
         if len(toks) > 1:
             self.judge('\n'.join(toks) + '\n', acc, case)
 
     def check(self, case, acc):
+        global _LIMITED
+        if not _LIMITED:
+            # a parser that starts allocating per declared candidate must fail as MemoryError here, not take the machine down
+            import resource
+            try:
+                resource.setrlimit(resource.RLIMIT_AS, (3 * 2 ** 30, 3 * 2 ** 30))
+            except (ValueError, OSError):
+                pass
+            _LIMITED = True
         if 'text' in case:
             self.judge(case['text'], acc, {k: v for k, v in case.items() if k != 'text'})
             return
@@ -221,6 +256,33 @@ class C16(Check):
             full = ' '.join(toks)
             for i in range(len(full) + 1):
                 self.judge(full[:i], acc, case)
+        elif k == 'bytes':
+            good = ' '.join(S[0]).encode('utf-8')
+            menu = {
+                'latin-1 name': ' '.join(S[0]).replace('"A"', '"Zo\xeb"').encode('latin-1'),
+                'utf-16 with BOM': ' '.join(S[0]).encode('utf-16'),
+                'utf-16-le': ' '.join(S[0]).encode('utf-16-le'),
+                'utf-8 BOM + valid': b'\xef\xbb\xbf' + good,
+                'lone continuation byte': good[:7] + b'\x80' + good[7:],
+                'truncated multibyte': good + b'\xe6\x9d',
+                'binary junk': bytes(range(256)) * 3,
+                'NUL bytes': good.replace(b' ', b'\x00'),
+                'overlong encoding': good[:3] + b'\xc0\xaf' + good[3:],
+                'empty file': b'',
+            }
+            for label, data in menu.items():
+                if case.get('only') in (None, label):
+                    self.judge_bytes(data, acc, case, label)
+            self.judge_bytes(good, acc, case, 'valid utf-8')
+            # a path that cannot be opened is a profile error too
+            acc.evaluations += 1
+            try:
+                ElectionProfile(path='/nonexistent/dir/x.blt')
+                acc.violation('C16|file-missing', 'a missing file gave a profile', case)
+            except ElectionProfileError:
+                pass
+            except Exception as e:     # pylint: disable=broad-except
+                acc.violation('C16|file-raises|%s' % type(e).__name__, 'missing file raised %r' % e, case)
         elif k == 'hostile':
             toks = S[case['seed']]
             p = case['p']
